@@ -1144,7 +1144,7 @@ func init() {
 	register(&property{
 		Meta: propertyMeta{
 			ID:          "C05",
-			Explanation: "(C05-SENTINEL) Abort/AbortThen/AbortWithStatus store the one sentinel constant into the cursor on every path; AbortWithStatus records the caller's status on every path; IsAborted is index >= sentinel; Copy parks the copy. (C05-NOSKIP) the executor's loop condition re-reads the cursor after every handler call, abort functions do not unwind, and (C04-CURSOR) the cursor only moves forward, so a parked cursor ends every enclosing loop while suspended callers resume. (C05-LIMIT) every list that becomes part of an executed chain must be bounded below the sentinel where it grows and the executed sum must be covered.",
+			Explanation: "(C05-SENTINEL) Abort/AbortThen/AbortWithStatus store the one sentinel constant into the cursor on every path; AbortWithStatus records the caller's status on every path; IsAborted is index >= sentinel; Copy parks the copy. (C05-NOSKIP) the executor's loop condition re-reads the cursor after every handler call, abort functions do not unwind, and (C04-CURSOR) the cursor only moves forward, so a parked cursor ends every enclosing loop while suspended callers resume. (C05-LIMIT) every list that becomes part of an executed chain must be bounded below the sentinel where it grows and the executed sum must be covered. (C05-OUTSIDE) every dynamic func(*Context) call in the request core — dispatcher, ServeHTTP, HandleContext and what they reach by static calls, closures included — is either the executor's call or a call of the Router.OnError / OnPanic field: no handler is started where the abort cursor is not consulted.",
 			NotDecided:  []string{"the response status after AbortWithStatus once something was committed (C08's machine plus run-time order)", "user handler behaviour"},
 			Assumptions: []string{"handlers do not write the unexported cursor (they cannot: other package)"},
 		},
